@@ -38,6 +38,15 @@ type Solver struct {
 	argv     []string
 	SawErr   string
 	Unknowns int
+
+	// one-shot mode: large contexts are solved by a fresh solver process (z3's non-incremental
+	// strategy is 10-30x faster than its incremental core on ite-heavy bit-vector problems)
+	OneShotMin  int
+	lines       [][]string
+	nlines      int
+	lastOneShot bool
+	OneShots    int
+	TmpDir      string
 }
 
 // New starts a solver. argv e.g. {"z3","-in","-t:10000"}.
@@ -68,6 +77,8 @@ func (s *Solver) start() error {
 	s.level = 0
 	s.defined = map[int]bool{}
 	s.stack = [][]int{nil}
+	s.lines = [][]string{nil}
+	s.nlines = 0
 	s.send("(set-option :print-success false)")
 	return nil
 }
@@ -81,9 +92,17 @@ func (s *Solver) Close() {
 	}
 }
 
+func (s *Solver) record(line string) {
+	s.lines[len(s.lines)-1] = append(s.lines[len(s.lines)-1], line)
+	s.nlines++
+}
+
 func (s *Solver) send(line string) {
 	if s.Log != nil {
 		fmt.Fprintln(s.Log, line)
+	}
+	if strings.HasPrefix(line, "(declare-") || strings.HasPrefix(line, "(assert") || strings.HasPrefix(line, "(define-") {
+		s.record(line)
 	}
 	io.WriteString(s.in, line)
 	io.WriteString(s.in, "\n")
@@ -95,6 +114,7 @@ func (s *Solver) Push() {
 	s.send("(push)")
 	s.level++
 	s.stack = append(s.stack, nil)
+	s.lines = append(s.lines, nil)
 }
 
 func (s *Solver) PopTo(level int) {
@@ -109,6 +129,8 @@ func (s *Solver) PopTo(level int) {
 			delete(s.defined, id)
 		}
 		s.stack = s.stack[:len(s.stack)-1]
+		s.nlines -= len(s.lines[len(s.lines)-1])
+		s.lines = s.lines[:len(s.lines)-1]
 	}
 	s.level = level
 }
@@ -174,6 +196,12 @@ func (s *Solver) readLine() (string, error) {
 
 // Check runs (check-sat) under the current assertions.
 func (s *Solver) Check() Result {
+	if s.OneShotMin > 0 && s.nlines >= s.OneShotMin {
+		s.lastOneShot = true
+		r, _ := s.oneShot("")
+		return r
+	}
+	s.lastOneShot = false
 	t0 := time.Now()
 	s.Queries++
 	s.send("(check-sat)")
@@ -237,6 +265,13 @@ func (s *Solver) Model(vars []*sym.Term) (map[string]uint64, error) {
 		sb.WriteString(" ")
 	}
 	sb.WriteString("))")
+	if s.lastOneShot {
+		r, out := s.oneShot(sb.String())
+		if r != Sat {
+			return nil, fmt.Errorf("one-shot model: solver answered %v", r)
+		}
+		return parseModel(out)
+	}
 	s.send(sb.String())
 	// read balanced s-expression
 	depth, started := 0, false
@@ -261,7 +296,12 @@ func (s *Solver) Model(vars []*sym.Term) (map[string]uint64, error) {
 		}
 		buf.WriteString(line)
 	}
-	toks := tokenize(buf.String())
+	return parseModel(buf.String())
+}
+
+func parseModel(text string) (map[string]uint64, error) {
+	m := map[string]uint64{}
+	toks := tokenize(text)
 	// grammar: ( (name value) ... )
 	pos := 1
 	for pos < len(toks) && toks[pos] == "(" {
@@ -280,10 +320,72 @@ func (s *Solver) Model(vars []*sym.Term) (map[string]uint64, error) {
 	return m, nil
 }
 
+// oneShot solves the current assertion stack with a fresh solver process.
+func (s *Solver) oneShot(getValue string) (Result, string) {
+	t0 := time.Now()
+	s.Queries++
+	s.OneShots++
+	defer func() { s.Time += time.Since(t0) }()
+	dir := s.TmpDir
+	if dir == "" {
+		dir = os.TempDir()
+	}
+	f, err := os.CreateTemp(dir, "gosym-*.smt2")
+	if err != nil {
+		s.SawErr = err.Error()
+		s.Errors++
+		return Unknown, ""
+	}
+	defer os.Remove(f.Name())
+	w := bufio.NewWriter(f)
+	for _, lv := range s.lines {
+		for _, l := range lv {
+			w.WriteString(l)
+			w.WriteByte('\n')
+		}
+	}
+	w.WriteString("(check-sat)\n")
+	if getValue != "" {
+		w.WriteString(getValue + "\n")
+	}
+	w.Flush()
+	f.Close()
+	argv := []string{}
+	for _, a := range s.argv[1:] {
+		if a != "-in" {
+			argv = append(argv, a)
+		}
+	}
+	argv = append(argv, f.Name())
+	out, _ := exec.Command(s.argv[0], argv...).Output()
+	text := string(out)
+	if strings.Contains(text, "(error") {
+		s.SawErr = text
+		s.Errors++
+		return Unknown, ""
+	}
+	first, rest, _ := strings.Cut(strings.TrimSpace(text), "\n")
+	switch strings.TrimSpace(first) {
+	case "sat":
+		return Sat, rest
+	case "unsat":
+		return Unsat, rest
+	}
+	s.Unknowns++
+	return Unknown, rest
+}
+
 // ModelOf returns the value of an arbitrary term under the last sat answer.
 func (s *Solver) ModelOf(t *sym.Term) (uint64, error) {
 	if t.Op != sym.OConst && !s.defined[t.ID] {
 		return 0, fmt.Errorf("ModelOf: term not defined before check-sat")
+	}
+	if s.lastOneShot {
+		r, out := s.oneShot(fmt.Sprintf("(get-value (%s))", sym.Ref(t)))
+		if r != Sat {
+			return 0, fmt.Errorf("one-shot model: solver answered %v", r)
+		}
+		return parseOne(out)
 	}
 	s.send(fmt.Sprintf("(get-value (%s))", sym.Ref(t)))
 	depth, started := 0, false
@@ -308,7 +410,11 @@ func (s *Solver) ModelOf(t *sym.Term) (uint64, error) {
 		}
 		buf.WriteString(line)
 	}
-	toks := tokenize(buf.String())
+	return parseOne(buf.String())
+}
+
+func parseOne(text string) (uint64, error) {
+	toks := tokenize(text)
 	// ( ( ref value ) )
 	if len(toks) < 5 {
 		return 0, fmt.Errorf("model parse: %v", toks)
